@@ -2,7 +2,7 @@
 
 PROP = {
     "level_text_more": "TestVFC09ResetAcrossHourStep holds the flush worker inside the clock function the module is configured with (after it has read the hour), lets the hour end and the statistics be reset, and demands every query counted afterwards; TestVFC09CloseVsFlush overlaps a clean shutdown with the worker's poll at the hour step in real goroutines (a round without progress for 60 s is a deadlock) and checks the totals after the restart.",
-    "thorough_scale": 4,
+    "thorough_scale": 2,
     "pkg": "internal/stats",
     "files": ["stats/c09_seq_test.go", "stats/c09_conc_test.go"],
     "level": "exploration",
